@@ -1,21 +1,78 @@
 // C09 harness: runs a history of calls on one libphysica::Interpolation / Interpolation_2D object and, for
 // every query, also asks a freshly constructed object (same table, prefactor set to the product of the
 // Set_Prefactor / Multiply calls so far) and, for Interpolate / Derivative, a fresh object with prefactor 1.
+// Every object (used, fresh, prefactor-free) is built by the constructor overload and with the unit arguments the case names:
+// v<argc> = Interpolation(xs, ys[, x_dim[, f_dim]]), r<argc> = Interpolation(rows[, x_dim[, f_dim]]),
+// g<argc> = Interpolation_2D(xs, ys, f[, x_dim[, y_dim[, f_dim]]]), t<argc> = Interpolation_2D(rows (x,y,f)[, ...]);
+// argc = number of unit arguments passed explicitly (the others are left to the default arguments).
 // Case grammar and output tokens: see checks/C09.py.
 #include "common.hpp"
 #include "libphysica/Numerics.hpp"
 #include <memory>
 using namespace libphysica;
 
+struct Ctor
+{
+	char kind = 'v';
+	int argc  = 0;
+	double dim[3] = {-1.0, -1.0, -1.0};
+	bool read(vh::Reader& r, int ndims)
+	{
+		std::string w = r.word();
+		if(w.size() != 2)
+			return false;
+		kind = w[0];
+		argc = w[1] - '0';
+		if(argc < 0 || argc > ndims)
+			return false;
+		for(int k = 0; k < argc; k++)
+			dim[k] = r.num();
+		return true;
+	}
+};
+
+struct Maker1
+{
+	Ctor c;
+	std::vector<double> xs, ys;
+	std::vector<std::vector<double>> rows;
+	Interpolation make() const
+	{
+		if(c.kind == 'r')
+		{
+			if(c.argc == 0)
+				return Interpolation(rows);
+			if(c.argc == 1)
+				return Interpolation(rows, c.dim[0]);
+			return Interpolation(rows, c.dim[0], c.dim[1]);
+		}
+		if(c.argc == 0)
+			return Interpolation(xs, ys);
+		if(c.argc == 1)
+			return Interpolation(xs, ys, c.dim[0]);
+		return Interpolation(xs, ys, c.dim[0], c.dim[1]);
+	}
+};
+
 static void one_d(vh::Reader& r, vh::Out& o)
 {
-	std::vector<double> xs = r.list(), ys = r.list();
+	Maker1 mk;
+	if(!mk.c.read(r, 2) || (mk.c.kind != 'v' && mk.c.kind != 'r'))
+	{
+		o.w("HARNESSERR ctor");
+		return;
+	}
+	mk.xs = r.list();
+	mk.ys = r.list();
+	if(mk.c.kind == 'r')
+		for(size_t i = 0; i < mk.xs.size() && i < mk.ys.size(); i++)
+			mk.rows.push_back({mk.xs[i], mk.ys[i]});
 	long nops = r.integer();
-	std::unique_ptr<Interpolation> cur(new Interpolation(xs, ys));
+	std::unique_ptr<Interpolation> cur(new Interpolation(mk.make()));
 	std::vector<std::pair<std::unique_ptr<Interpolation>, double>> stack;
 	double pf = 1.0;   // the prefactor the calls so far should have left behind
 	auto fresh = [&]() {
-		Interpolation f(xs, ys);
+		Interpolation f = mk.make();
 		f.Set_Prefactor(pf);
 		return f;
 	};
@@ -30,15 +87,15 @@ static void one_d(vh::Reader& r, vh::Out& o)
 			o.i(j);
 			o.i(f.Locate(x));
 		}
-		else if(w == "I")
+		else if(w == "I" || w == "O")
 		{
 			double x = r.num();
-			double v = cur->Interpolate(x);
+			double v = (w == "I") ? cur->Interpolate(x) : (*cur)(x);
 			Interpolation f = fresh();
-			Interpolation b(xs, ys);
+			Interpolation b = mk.make();
 			o.f(v);
-			o.f(f.Interpolate(x));
-			o.f(b.Interpolate(x));
+			o.f((w == "I") ? f.Interpolate(x) : f(x));
+			o.f((w == "I") ? b.Interpolate(x) : b(x));
 		}
 		else if(w == "D")
 		{
@@ -46,36 +103,58 @@ static void one_d(vh::Reader& r, vh::Out& o)
 			long d	 = r.integer();
 			double v = cur->Derivative(x, (unsigned int) d);
 			Interpolation f = fresh();
-			Interpolation b(xs, ys);
+			Interpolation b = mk.make();
 			o.f(v);
 			o.f(f.Derivative(x, (unsigned int) d));
 			o.f(b.Derivative(x, (unsigned int) d));
+		}
+		else if(w == "d")	// the default argument of Derivative
+		{
+			double x = r.num();
+			double v = cur->Derivative(x);
+			Interpolation f = fresh();
+			Interpolation b = mk.make();
+			o.f(v);
+			o.f(f.Derivative(x));
+			o.f(b.Derivative(x));
 		}
 		else if(w == "G" || w == "m" || w == "M")
 		{
 			double a = r.num(), b = r.num();
 			Interpolation f = fresh();
+			Interpolation b1 = mk.make(), b2 = mk.make();
 			if(w == "G")
 			{
 				o.f(cur->Integrate(a, b));
 				o.f(f.Integrate(a, b));
-			}
-			else if(w == "m")
-			{
-				o.f(cur->Local_Minimum(a, b));
-				o.f(f.Local_Minimum(a, b));
+				o.f(b1.Integrate(a, b));
 			}
 			else
 			{
-				o.f(cur->Local_Maximum(a, b));
-				o.f(f.Local_Maximum(a, b));
+				o.f(w == "m" ? cur->Local_Minimum(a, b) : cur->Local_Maximum(a, b));
+				o.f(w == "m" ? f.Local_Minimum(a, b) : f.Local_Maximum(a, b));
+				o.f(b1.Local_Minimum(a, b));
+				o.f(b2.Local_Maximum(a, b));
 			}
 		}
 		else if(w == "gm" || w == "gM")
 		{
 			Interpolation f = fresh();
+			Interpolation b1 = mk.make(), b2 = mk.make();
 			o.f(w == "gm" ? cur->Global_Minimum() : cur->Global_Maximum());
 			o.f(w == "gm" ? f.Global_Minimum() : f.Global_Maximum());
+			o.f(b1.Global_Minimum());
+			o.f(b2.Global_Maximum());
+		}
+		else if(w == "Q")	// the public data member domain
+		{
+			if(cur->domain.size() != 2)
+			{
+				o.w("HARNESSERR domain_size");
+				return;
+			}
+			o.f(cur->domain[0]);
+			o.f(cur->domain[1]);
 		}
 		else if(w == "P")
 		{
@@ -121,38 +200,93 @@ static void one_d(vh::Reader& r, vh::Out& o)
 	}
 }
 
+struct Maker2
+{
+	Ctor c;
+	std::vector<double> xs, ys;
+	std::vector<std::vector<double>> f, rows;
+	Interpolation_2D make() const
+	{
+		if(c.kind == 't')
+		{
+			if(c.argc == 0)
+				return Interpolation_2D(rows);
+			if(c.argc == 1)
+				return Interpolation_2D(rows, c.dim[0]);
+			if(c.argc == 2)
+				return Interpolation_2D(rows, c.dim[0], c.dim[1]);
+			return Interpolation_2D(rows, c.dim[0], c.dim[1], c.dim[2]);
+		}
+		if(c.argc == 0)
+			return Interpolation_2D(xs, ys, f);
+		if(c.argc == 1)
+			return Interpolation_2D(xs, ys, f, c.dim[0]);
+		if(c.argc == 2)
+			return Interpolation_2D(xs, ys, f, c.dim[0], c.dim[1]);
+		return Interpolation_2D(xs, ys, f, c.dim[0], c.dim[1], c.dim[2]);
+	}
+};
+
 static void two_d(vh::Reader& r, vh::Out& o)
 {
-	std::vector<double> xs = r.list(), ys = r.list();
-	std::vector<std::vector<double>> f(xs.size(), std::vector<double>(ys.size()));
-	for(auto& row : f)
+	Maker2 mk;
+	if(!mk.c.read(r, 3) || (mk.c.kind != 'g' && mk.c.kind != 't'))
+	{
+		o.w("HARNESSERR ctor");
+		return;
+	}
+	mk.xs = r.list();
+	mk.ys = r.list();
+	mk.f.assign(mk.xs.size(), std::vector<double>(mk.ys.size()));
+	for(auto& row : mk.f)
 		for(auto& v : row)
 			v = r.num();
+	if(mk.c.kind == 't')
+		for(size_t i = 0; i < mk.xs.size(); i++)
+			for(size_t j = 0; j < mk.ys.size(); j++)
+				mk.rows.push_back({mk.xs[i], mk.ys[j], mk.f[i][j]});
 	long nops = r.integer();
-	std::unique_ptr<Interpolation_2D> cur(new Interpolation_2D(xs, ys, f));
+	std::unique_ptr<Interpolation_2D> cur(new Interpolation_2D(mk.make()));
 	std::vector<std::pair<std::unique_ptr<Interpolation_2D>, double>> stack;
 	double pf = 1.0;
 	auto fresh = [&]() {
-		Interpolation_2D g(xs, ys, f);
+		Interpolation_2D g = mk.make();
 		g.Set_Prefactor(pf);
 		return g;
 	};
 	for(long k = 0; k < nops; k++)
 	{
 		std::string w = r.word();
-		if(w == "I")
+		if(w == "I" || w == "O")
 		{
 			double x = r.num(), y = r.num();
-			double v = cur->Interpolate(x, y);
+			double v = (w == "I") ? cur->Interpolate(x, y) : (*cur)(x, y);
 			Interpolation_2D g = fresh();
+			Interpolation_2D b = mk.make();
 			o.f(v);
-			o.f(g.Interpolate(x, y));
+			o.f((w == "I") ? g.Interpolate(x, y) : g(x, y));
+			o.f((w == "I") ? b.Interpolate(x, y) : b(x, y));
 		}
 		else if(w == "gm" || w == "gM")
 		{
 			Interpolation_2D g = fresh();
+			Interpolation_2D b = mk.make();
 			o.f(w == "gm" ? cur->Global_Minimum() : cur->Global_Maximum());
 			o.f(w == "gm" ? g.Global_Minimum() : g.Global_Maximum());
+			o.f(b.Global_Minimum());
+			o.f(b.Global_Maximum());
+		}
+		else if(w == "Q")
+		{
+			if(cur->domain.size() != 2 || cur->domain[0].size() != 2 || cur->domain[1].size() != 2)
+			{
+				o.w("HARNESSERR domain_size");
+				return;
+			}
+			o.f(cur->domain[0][0]);
+			o.f(cur->domain[0][1]);
+			o.f(cur->domain[1][0]);
+			o.f(cur->domain[1][1]);
 		}
 		else if(w == "P")
 		{
